@@ -126,6 +126,32 @@ func c03LitField(v ssa.Value, fv *types.Var) ssa.Value {
 	return val
 }
 
+// c03ReachesMapUpdate: fn, or a module function / closure it calls (to the
+// given depth), updates a map.
+func c03ReachesMapUpdate(fn *ssa.Function, depth int, seen map[*ssa.Function]bool) bool {
+	if fn == nil || seen[fn] || len(fn.Blocks) == 0 {
+		return false
+	}
+	seen[fn] = true
+	found := false
+	AllInstrs(fn, func(in ssa.Instruction) {
+		if found {
+			return
+		}
+		switch x := in.(type) {
+		case *ssa.MapUpdate:
+			found = true
+		case ssa.CallInstruction:
+			if depth > 0 {
+				if g := StaticCallee(x); g != nil && inModule(g) && c03ReachesMapUpdate(g, depth-1, seen) {
+					found = true
+				}
+			}
+		}
+	})
+	return found
+}
+
 func c03R1(c *Ctx) {
 	const R = "C03.R1.find-roots-shape"
 	c.Expect(R, 11)
@@ -257,15 +283,10 @@ func c03R1(c *Ctx) {
 						}
 					}
 				}
-				if callee == nil || callee.Parent() != F {
+				if callee == nil || !inModule(callee) || len(callee.Blocks) == 0 {
 					return
 				}
-				updates := false
-				AllInstrs(callee, func(i2 ssa.Instruction) {
-					if _, ok := i2.(*ssa.MapUpdate); ok {
-						updates = true
-					}
-				})
+				updates := c03ReachesMapUpdate(callee, 3, map[*ssa.Function]bool{})
 				gotNode := false
 				for _, a := range x.Call.Args {
 					if c01IsOCIDescriptor(a.Type()) && derivesCurNode(a) {
@@ -563,16 +584,10 @@ func c03R2(c *Ctx) {
 		c.LostAnchor(R, "~.ExtendedCopyGraph")
 		return
 	}
-	ts := traversalClosures(c.P)
-	if len(ts) == 0 {
-		c.LostAnchor(R, "traversal closure")
+	copyGraphs := c01GraphCopyFns(c.P)
+	if len(copyGraphs) == 0 {
+		c.LostAnchor(R, "graph copy (function handing the traversal to syncutil.Go)")
 		return
-	}
-	copyGraphs := map[*ssa.Function]bool{}
-	for _, t := range ts {
-		if t.Parent() != nil {
-			copyGraphs[t.Parent()] = true
-		}
 	}
 	gos := CallsTo(E, nGo)
 	if len(gos) != 1 {
@@ -595,24 +610,50 @@ func c03R2(c *Ctx) {
 	}
 	c.Check(R, "~.ExtendedCopyGraph|dispatches-found-roots", goCall.Pos(), rootsOK,
 		ifelse(rootsOK, "the items dispatched are the roots returned by the DFS", "the items handed to syncutil.Go are not the root finder's result"))
-	var perRoot *ssa.Function
-	for _, r := range Roots(goCall.Common().Args[2]) {
-		if mc, ok := r.(*ssa.MakeClosure); ok {
-			perRoot = mc.Fn.(*ssa.Function)
-		}
-	}
-	if perRoot == nil {
-		c.Undecided(R, "~.ExtendedCopyGraph|per-root-closure", goCall.Pos(), "the function handed to syncutil.Go is not a closure literal")
+	perRoot, _ := c01FuncOfValue(goCall.Common().Args[2])
+	if perRoot == nil || len(perRoot.Blocks) == 0 {
+		c.Undecided(R, "~.ExtendedCopyGraph|per-root-closure", goCall.Pos(), "the function handed to syncutil.Go is not a closure, method value or function of the module")
 		return
 	}
-	var cg ssa.CallInstruction
-	for _, call := range Calls(perRoot, func(string) bool { return true }) {
-		if g := StaticCallee(call); g != nil && copyGraphs[g] {
-			cg = call
+	// the graph-copy call reached from the per-root function, directly or through module helpers (depth <= 3);
+	// arguments that are helper parameters are mapped back to the values at the helper's call site
+	var find func(fn *ssa.Function, subst map[*ssa.Parameter]ssa.Value, depth int) (ssa.CallInstruction, []ssa.Value)
+	find = func(fn *ssa.Function, subst map[*ssa.Parameter]ssa.Value, depth int) (ssa.CallInstruction, []ssa.Value) {
+		resolve := func(a ssa.Value) ssa.Value {
+			if p := c01ParamOf(a); p != nil && p.Parent() == fn {
+				if v, ok := subst[p]; ok {
+					return v
+				}
+			}
+			return a
 		}
+		for _, call := range Calls(fn, func(string) bool { return true }) {
+			g := StaticCallee(call)
+			if g == nil || !inModule(g) || len(g.Blocks) == 0 {
+				continue
+			}
+			var args []ssa.Value
+			for _, a := range call.Common().Args {
+				args = append(args, resolve(a))
+			}
+			if copyGraphs[g] {
+				return call, args
+			}
+			if depth < 3 && len(args) == len(g.Params) {
+				sub := map[*ssa.Parameter]ssa.Value{}
+				for i, prm := range g.Params {
+					sub[prm] = args[i]
+				}
+				if c2, a2 := find(g, sub, depth+1); c2 != nil {
+					return c2, a2
+				}
+			}
+		}
+		return nil, nil
 	}
+	cg, cgArgs := find(perRoot, map[*ssa.Parameter]ssa.Value{}, 0)
 	if cg == nil {
-		c.LostAnchor(R, "call of the graph copy (parent of the traversal closure) inside the per-root closure")
+		c.LostAnchor(R, "call of the graph copy (function handing the traversal to syncutil.Go) reachable from the per-root function")
 		return
 	}
 	callee := StaticCallee(cg)
@@ -629,21 +670,11 @@ func c03R2(c *Ctx) {
 		default:
 			continue
 		}
-		arg := cg.Common().Args[i]
+		arg := cgArgs[i]
 		ok, detail := false, "the "+what+" handed to the per-root copy is not a single object created once in ExtendedCopyGraph (nil or per-root values make every root use its own, so shared sub-graphs are copied twice and ordering across roots is lost)"
-		if ld, isLoad := arg.(*ssa.UnOp); isLoad && ld.Op == token.MUL {
-			if fv, isFV := ld.X.(*ssa.FreeVar); isFV {
-				bs := freeVarBindings(fv)
-				if len(bs) == 1 {
-					if a, isAlloc := bs[0].(*ssa.Alloc); isAlloc && a.Parent() == E {
-						ss := storesTo(a)
-						if len(ss) == 1 && len(closureWriters(a)) == 0 {
-							if call, isCall := ss[0].Val.(*ssa.Call); isCall && !Reachable(call, call) {
-								ok, detail = true, "captured variable assigned once from "+CalleeName(call)+" outside the per-root closure"
-							}
-						}
-					}
-				}
+		if srcs, carried := c01CarriedSources(c.P, arg); carried && len(srcs) == 1 {
+			if call, isCall := srcs[0].(*ssa.Call); isCall && call.Parent() == E && !Reachable(call, call) {
+				ok, detail = true, "state carried into the per-root copy, assigned once from "+CalleeName(call)+" outside the per-root function"
 			}
 		}
 		c.Check(R, "~.ExtendedCopyGraph|shared-"+what, cg.Pos(), ok, detail)
@@ -1439,8 +1470,8 @@ var c03Mutants = []Mutant{
 		Old: "\t\t\tif !visited.Contains(predecessorKey) {",
 		New: "\t\t\tif !visited.Contains(predecessorKey) && descriptor.IsManifest(predecessor) {", Expect: "C03.R1.find-roots-shape|~.findRoots|every-predecessor-pushed"},
 	{Name: "page-accumulator-reset", File: "extendedcopy.go",
-		Old: "\t\t\t\t\t// for each page of the results, filter the referrers\n\t\t\t\t\tfor _, r := range referrers {\n\t\t\t\t\t\tif keep(r) {\n\t\t\t\t\t\t\tpredecessors = append(predecessors, r)\n\t\t\t\t\t\t}\n\t\t\t\t\t}\n\t\t\t\t\treturn nil\n\t\t\t\t}); err != nil {\n\t\t\t\t\treturn nil, err\n\t\t\t\t}\n\t\t\t\treturn predecessors, nil\n\t\t\t}\n\t\t\tpredecessors, err = src.Predecessors(ctx, desc)\n\t\t} else {\n\t\t\tpredecessors, err = fp(ctx, src, desc)\n\t\t}\n\t\tif err != nil {\n\t\t\treturn nil, err\n\t\t}\n\n\t\t// predecessor descriptors",
-		New: "\t\t\t\t\t// for each page of the results, filter the referrers\n\t\t\t\t\tpredecessors = predecessors[:0]\n\t\t\t\t\tfor _, r := range referrers {\n\t\t\t\t\t\tif keep(r) {\n\t\t\t\t\t\t\tpredecessors = append(predecessors, r)\n\t\t\t\t\t\t}\n\t\t\t\t\t}\n\t\t\t\t\treturn nil\n\t\t\t\t}); err != nil {\n\t\t\t\t\treturn nil, err\n\t\t\t\t}\n\t\t\t\treturn predecessors, nil\n\t\t\t}\n\t\t\tpredecessors, err = src.Predecessors(ctx, desc)\n\t\t} else {\n\t\t\tpredecessors, err = fp(ctx, src, desc)\n\t\t}\n\t\tif err != nil {\n\t\t\treturn nil, err\n\t\t}\n\n\t\t// predecessor descriptors",
+		Old:    "\t\t\t\t\t// for each page of the results, filter the referrers\n\t\t\t\t\tfor _, r := range referrers {\n\t\t\t\t\t\tif keep(r) {\n\t\t\t\t\t\t\tpredecessors = append(predecessors, r)\n\t\t\t\t\t\t}\n\t\t\t\t\t}\n\t\t\t\t\treturn nil\n\t\t\t\t}); err != nil {\n\t\t\t\t\treturn nil, err\n\t\t\t\t}\n\t\t\t\treturn predecessors, nil\n\t\t\t}\n\t\t\tpredecessors, err = src.Predecessors(ctx, desc)\n\t\t} else {\n\t\t\tpredecessors, err = fp(ctx, src, desc)\n\t\t}\n\t\tif err != nil {\n\t\t\treturn nil, err\n\t\t}\n\n\t\t// predecessor descriptors",
+		New:    "\t\t\t\t\t// for each page of the results, filter the referrers\n\t\t\t\t\tpredecessors = predecessors[:0]\n\t\t\t\t\tfor _, r := range referrers {\n\t\t\t\t\t\tif keep(r) {\n\t\t\t\t\t\t\tpredecessors = append(predecessors, r)\n\t\t\t\t\t\t}\n\t\t\t\t\t}\n\t\t\t\t\treturn nil\n\t\t\t\t}); err != nil {\n\t\t\t\t\treturn nil, err\n\t\t\t\t}\n\t\t\t\treturn predecessors, nil\n\t\t\t}\n\t\t\tpredecessors, err = src.Predecessors(ctx, desc)\n\t\t} else {\n\t\t\tpredecessors, err = fp(ctx, src, desc)\n\t\t}\n\t\tif err != nil {\n\t\t\treturn nil, err\n\t\t}\n\n\t\t// predecessor descriptors",
 		Expect: "C03.R6.filter-keeps-every-match|(*~.ExtendedCopyGraphOptions).FilterArtifactType$page-callback|accumulator-only-appended"},
 	{Name: "kept-restarts-after-fetch", File: "extendedcopy.go",
 		Old: "\t\t\t\t\tp.ArtifactType = artifactType\n\t\t\t\t}\n\t\t\t}\n\t\t\tif keep(p) {", New: "\t\t\t\t\tp.ArtifactType = artifactType\n\t\t\t\t\tkept = nil\n\t\t\t\t}\n\t\t\t}\n\t\t\tif keep(p) {",
@@ -1449,8 +1480,8 @@ var c03Mutants = []Mutant{
 		Old: "\t\t\t\t\tp.Annotations = annotations\n\t\t\t\t}\n\t\t\t}\n\t\t\tif keep(p) {\n\t\t\t\tkept = append(kept, p)\n\t\t\t}", New: "\t\t\t\t\tp.Annotations = annotations\n\t\t\t\t}\n\t\t\t}\n\t\t\tif len(p.Annotations) == 0 {\n\t\t\t\tcontinue\n\t\t\t}\n\t\t\tif keep(p) {\n\t\t\t\tkept = append(kept, p)\n\t\t\t}",
 		Expect: "C03.R6.filter-keeps-every-match|(*~.ExtendedCopyGraphOptions).FilterAnnotation$wrapper|every-predecessor-tested-and-kept"},
 	{Name: "referrers-path-returns-nil-list", File: "extendedcopy.go",
-		Old: "\t\t\t\treturn predecessors, nil\n\t\t\t}\n\t\t\tpredecessors, err = src.Predecessors(ctx, desc)\n\t\t} else {\n\t\t\tpredecessors, err = fp(ctx, src, desc)\n\t\t}\n\t\tif err != nil {\n\t\t\treturn nil, err\n\t\t}\n\n\t\t// Predecessor descriptors",
-		New: "\t\t\t\tvar found []ocispec.Descriptor\n\t\t\t\tfound = append(found, predecessors[:len(predecessors):len(predecessors)]...)\n\t\t\t\treturn found[:0], nil\n\t\t\t}\n\t\t\tpredecessors, err = src.Predecessors(ctx, desc)\n\t\t} else {\n\t\t\tpredecessors, err = fp(ctx, src, desc)\n\t\t}\n\t\tif err != nil {\n\t\t\treturn nil, err\n\t\t}\n\n\t\t// Predecessor descriptors",
+		Old:    "\t\t\t\treturn predecessors, nil\n\t\t\t}\n\t\t\tpredecessors, err = src.Predecessors(ctx, desc)\n\t\t} else {\n\t\t\tpredecessors, err = fp(ctx, src, desc)\n\t\t}\n\t\tif err != nil {\n\t\t\treturn nil, err\n\t\t}\n\n\t\t// Predecessor descriptors",
+		New:    "\t\t\t\tvar found []ocispec.Descriptor\n\t\t\t\tfound = append(found, predecessors[:len(predecessors):len(predecessors)]...)\n\t\t\t\treturn found[:0], nil\n\t\t\t}\n\t\t\tpredecessors, err = src.Predecessors(ctx, desc)\n\t\t} else {\n\t\t\tpredecessors, err = fp(ctx, src, desc)\n\t\t}\n\t\tif err != nil {\n\t\t\treturn nil, err\n\t\t}\n\n\t\t// Predecessor descriptors",
 		Expect: "C03.R6.filter-keeps-every-match|(*~.ExtendedCopyGraphOptions).FilterAnnotation$wrapper|returns-page-accumulator"},
 	// --- below: see the report for which of these the repository's tests also catch ---
 	{Name: "referrers-ignores-artifact-type", File: "registry/repository.go",
